@@ -1,4 +1,5 @@
 import CalVerif.Lemmas.BiffSheet
+import CalVerif.Lemmas.Range
 /-! C02 helper lemmas, fuel: the loop budgets of the model (`gather`, `itemsF`) always suffice and no other
     definition can return `outOfFuel` (termination side of the model; the theorem is `sheetRange_total` in Props/C02). -/
 
@@ -224,40 +225,7 @@ theorem sheetLoop_ne_fuel (env : Env) : ∀ (its : List Item) (st : St), Item.fa
       | panic e => simp
       | outOfFuel => exact absurd hst hs
 
-theorem sparseStep_ne_fuel {α : Type} (rs cs cols len : Nat) (acc : Res (List α)) (c : Nat × Nat × α)
-    (h : acc ≠ .outOfFuel) : Range.sparseStep rs cs cols len acc c ≠ .outOfFuel := by
-  unfold Range.sparseStep
-  cases acc with
-  | ok v => simp only; split <;> (try split) <;> simp
-  | err e => simp
-  | panic e => simp
-  | outOfFuel => exact absurd rfl h
-
-theorem sparse_fold_ne_fuel {α : Type} (rs cs cols len : Nat) : ∀ (cells : List (Nat × Nat × α)) (acc : Res (List α)),
-    acc ≠ .outOfFuel → cells.foldl (Range.sparseStep rs cs cols len) acc ≠ .outOfFuel
-  | [], acc, h => by simpa using h
-  | c :: rest, acc, h => by
-    rw [List.foldl_cons]
-    exact sparse_fold_ne_fuel rs cs cols len rest _ (sparseStep_ne_fuel rs cs cols len acc c h)
-
 theorem fromSparse_ne_fuel {α : Type} [Inhabited α] (cells : List (Nat × Nat × α)) :
-    Range.fromSparse cells ≠ .outOfFuel := by
-  unfold Range.fromSparse
-  cases cells with
-  | nil => simp
-  | cons c0 rest =>
-    simp only
-    split
-    · simp
-    · split
-      · simp
-      · split
-        · simp
-        · split
-          · simp
-          · simp
-          · simp
-          · next h =>
-            exact absurd h (sparse_fold_ne_fuel _ _ _ _ _ _ (by simp))
+    Range.fromSparse cells ≠ .outOfFuel := Range.fromSparse_ne_fuel cells
 
 end BiffCells
